@@ -47,7 +47,8 @@ def gen_layer_case(rng):
                 size = rng.choice([1, 5, 100, 1200, 3000])
                 ins.append([1, rng.randrange(nch), 53, [rng.randrange(256) for _ in range(min(size, 6))] + [0] * max(0, size - 6)])
         elif k < 0.46 and nch:
-            ins.append([2, rng.randrange(nch)])
+            # third field: this end's association is being set up (COOKIE_WAIT / COOKIE_ECHOED) when close() runs
+            ins.append([2, rng.randrange(nch), 1 if rng.random() < 0.4 else 0])
         elif k < 0.50 and nch:
             ins.append([3, rng.randrange(nch), rng.choice([0, 1, 50, 1000, 4294967295])])
         elif k < 0.68:
@@ -271,10 +272,16 @@ class C13(Check):
                                 events.append([10, 2])
                     elif k == 2:
                         if inp[1] < len(chans):
+                            St = S.RTCSctpTransport.State
+                            saved = t._association_state
+                            if len(inp) > 2 and inp[2] and saved != St.ESTABLISHED:
+                                t._association_state = St.COOKIE_WAIT if inp[1] % 2 else St.COOKIE_ECHOED
                             try:
                                 chans[inp[1]].close()
                             except KeyError:
                                 events.append([10, 3])
+                            finally:
+                                t._association_state = saved
                     elif k == 3:
                         if inp[1] < len(chans):
                             chans[inp[1]].bufferedAmountLowThreshold = inp[2]
@@ -447,6 +454,12 @@ class C13(Check):
             step //= 2
 
 
+def reconfig_lost(obs):
+    """a RE-CONFIG never reached the peer's stream-reset logic: dropped by the network, or discarded by a peer that
+    was not established yet; aiortc never retransmits it (K4)"""
+    return "ReconfigChunk" in obs.get("dropped_types", []) or bool(obs.get("reconfig_discarded"))
+
+
 def scenario_oracle(case, obs):
     r = scenario_oracle_raw(case, obs)
     if r is not None and obs.get("reset_overtook_data") and r[0] in (
@@ -457,6 +470,11 @@ def scenario_oracle(case, obs):
             "datachannel-params", "datachannel-event-count", "close-incomplete", "not-open-after-heal"):
         return ("stale-reset-closes-reused-id", "a stream id was reused before the peer's own reset of that stream "
                                                 "arrived; the late reset request closed the new channel: " + r[1])
+    if r is not None and reconfig_lost(obs) and r[0] in (
+            "datachannel-params", "datachannel-event-count", "close-incomplete", "not-open-after-heal"):
+        # K4: a lost RE-CONFIG is never retransmitted; one side keeps the stream registered ('closing' for ever) while
+        # the other frees and reuses the id, so later OPENs on that stream are ignored by the stuck side
+        return ("reconfig-lost-no-retransmit", "a RE-CONFIG datagram was lost and the stream reset never completes: " + r[1])
     return r
 
 
@@ -554,7 +572,7 @@ def scenario_oracle_raw(case, obs):
             if pos == len(mine) - 1 and len(theirs) <= len(mine) and (ch["registered"] or any(c2["registered"] for c2 in theirs)):
                 stuck = True
         if stuck:
-            if "ReconfigChunk" in obs["dropped_types"]:
+            if reconfig_lost(obs):
                 return ("reconfig-lost-no-retransmit", "a RE-CONFIG datagram was lost and the stream reset never completes")
             return ("close-incomplete", f"close() on ep{ep} channel #{i} (id {ch['id']}): local {ch['state']}, "
                                         f"peer {[c2['state'] for c2 in theirs]}")
